@@ -39,6 +39,17 @@ def layouts(tier, rng):
                         p = dict(sv)
                         p["scf_eps"] = 1.0e-10
                         out.append(dict(mols=mols, order=list(order), extra_pad=extra, pad_coord=padc, params=p))
+    # loose purification threshold (per-molecule spectral bounds matter most), unrestricted references in mixed batches
+    scf_driver.MOLS.setdefault("h2co", ([8, 6, 1, 1], [[-0.00104, -0.00028, 0.0], [1.20966, -0.00003, 0.0], [1.63293, 0.95572, 0.0], [1.82758, -0.85100, 0.0]], 0, 1))
+    fixed = []
+    for mols in (["h2", "h2co", "nh3"], ["h2co", "h2"], ["nh3", "h2", "h2o"]):
+        for order in ([list(range(len(mols))), list(reversed(range(len(mols))))]):
+            fixed.append(dict(mols=mols, order=order, extra_pad=0, pad_coord=0.0, params=dict(scf_converger=[1], sp2=[True, 1e-5], scf_eps=1.0e-10)))
+    for mols in (["ch4", "nh3", "h2o"], ["ch3", "h2o"], ["h2o", "ch2t", "nh3"], ["ch3", "ch2t", "h2"]):
+        for order in ([list(range(len(mols))), list(reversed(range(len(mols))))]):
+            for cv in ([1], [0, 0.3]):
+                fixed.append(dict(mols=mols, order=order, extra_pad=0, pad_coord=0.0, params=dict(scf_converger=cv, UHF=True, scf_eps=1.0e-10)))
+    out += fixed
     # finite electronic temperature (Krylov XL-BOMD branch) and excited states in mixed batches
     for mols in (["h2o", "h2co"], ["oh-", "h2co"], ["nh3", "h2o"]):
         for order in ([0, 1], [1, 0]):
@@ -54,6 +65,8 @@ def layouts(tier, rng):
         must += [l for l in special if (l.get("path") == "xlksa" and l["mols"] in (["oh-", "h2co"], ["h2o", "h2co"]) and l["T_el"] == 8000.0 and l["order"] == [0, 1])
                  or ("excited_states" in l["params"] and l["mols"] == ["h2o", "h2co"] and l["params"]["excited_states"]["n_states"] == 3)]
         must += rng.sample([l for l in special if l not in must], 3)
+        must += [l for l in fixed if l["order"] == list(range(len(l["mols"])))]
+        out = [l for l in out if l not in fixed]
         must += [l for l in out if l["mols"] == ["h2o", "h2", "oh-"] and l["order"] == [2, 0, 1] and l["extra_pad"] == 2 and l["pad_coord"] == 1.0e3 and "sp2" in l["params"] and l["params"]["scf_converger"] == [1]]
         out = must + rng.sample([l for l in out if l not in must], 14)
     else:
